@@ -67,6 +67,18 @@ def table(tier, ck):
     return cases
 
 
+def where_cases():
+    """Ternary where(c, x, y): broadcastable triples; condition values -1 / 0 / 1 (int) and -0.5 / 0 / 0.5 (float): true iff non-zero."""
+    small = [[1], [3], [4], [1, 3], [2, 1], [2, 3], [3, 1], [2, 1, 3], [1, 1, 1, 3]]
+    out = []
+    for c, x, y in itertools.product(small, repeat=3):
+        dims = max(len(c), len(x), len(y))
+        if all(len({t[-i] for t in (c, x, y) if len(t) >= i} - {1}) <= 1 for i in range(1, dims + 1)):
+            out.append(dict(op="where", shapes=[c, x, y], args=dict(cond="int")))
+            out.append(dict(op="where", shapes=[c, x, y], args=dict(cond="float")))
+    return out
+
+
 def seeded(ck, n):
     r = ck.rng
     out = []
@@ -93,11 +105,14 @@ def run(tier, seed):
     cases = opslib.number(tab + extra)
     drv = vlib.build_driver("drv_ufunc")
     opslib.run_ops(ck, drv, cases, want="valid", label="ufunc", describe=lambda c, k: f"ufunc {c['op']} {k}")
+    wc = opslib.number(where_cases(), start=len(cases))
+    opslib.run_ops(ck, vlib.build_driver("drv_select"), wc, want="valid", label="where", describe=lambda c, k: f"where {k}")
+    cases += wc
     ck.nontrivial_count = len({vlib.canon([c["op"], c["shapes"]]) for c in cases if len(c["shapes"]) > 1 and c["shapes"][0] != c["shapes"][1]})
     ck.rule = ("wiring: the recording operation mix(x,y)=(31x+17y+7) mod 10007 (non-commutative) through the generic ufunc machinery on every pair of shapes of the C06 scope "
                "(TLC export, compatible and incompatible, array and scalar operands) and outer on pairs of small shapes; every integer-computable named ufunc "
                f"({len(BIN)} binary, {len(UN)} unary incl. relu/relu6, 3 outer forms) on 12 wiring-revealing shape pairs with negative, zero and positive data inside the operation's domain, "
-               "result element class (bool/int) compared; seeded larger operands. non-trivial = distinct (op, shapes) with different operand shapes")
+               "result element class (bool/int) compared; seeded larger operands; ternary where(c,x,y) on every broadcastable triple of 9 shapes with integer (-1/0/1) and floating (-0.5/0/0.5) conditions. non-trivial = distinct (op, shapes) with different operand shapes")
     ck.exhaustive = True
     ck.extra.update(table_cases=len(tab), seeded_cases=len(extra), ufuncs_named=len(BIN) + len(UN) + len(OUTER))
     ck.assumptions += ["transcendental / float-only ufuncs and activations are not interpreted by TLC: their scalar functors are outside this check (the shared wiring they use is covered by mix)",
@@ -108,4 +123,4 @@ def run(tier, seed):
 
 
 def replay(rec):
-    return opslib.replay_ops(rec, "drv_ufunc")
+    return opslib.replay_ops(rec, "drv_select" if rec["case"].get("op") == "where" else "drv_ufunc")
